@@ -143,19 +143,24 @@ Init ==
        /\ hist = FundedHist(f, lim, mpp)
   /\ nb = 3 /\ nmq = 1 /\ nlq = 0 /\ n = 0 /\ done = FALSE
 
+\* quote ids whose request the model refused: following them up costs nothing when the implementation refused
+\* too, and walks the money path of the quote when it did not
+GhostMq == {Mq(i) : i \in 1..nmq} \ DOMAIN S.mq
+GhostLq == {Lq(i) : i \in 1..nlq} \ DOMAIN S.lq
+
 MintQuoteAct ==
   /\ On("mintquote") /\ nmq < MaxMq /\ Often(50)
   /\ \E amt \in Pick(Amts), lock \in Pick({"none", "none", "K1"}) :
        LET a == [amt |-> amt, lock |-> lock, unit |-> "sat", big |-> ""]
            accepted == MintQuoteCauses(S, a, Balance(S)) = {}
        IN /\ S' = IF accepted THEN NewMintQuote(S, Mq(nmq + 1), a) ELSE S
-          /\ nmq' = IF accepted THEN nmq + 1 ELSE nmq
+          /\ nmq' = nmq + 1      \* ids are given per request: a refused request leaves a ghost id behind
           /\ Record([op |-> "mintquote", amt |-> amt, lock |-> lock])
   /\ UNCHANGED <<nb, nlq>>
 
 SettleAct ==
   /\ On("settle")
-  /\ \E q \in Pick({q \in DOMAIN S.mq : ~S.mq[q].settled}) :
+  /\ \E q \in Pick({q \in DOMAIN S.mq : ~S.mq[q].settled} \cup (IF Sim /\ Often(30) THEN GhostMq ELSE {})) :
        /\ S' = LnSettle(S, q)
        /\ Record([op |-> "settle", q |-> q])
   /\ UNCHANGED <<nb, nmq, nlq>>
@@ -182,9 +187,10 @@ AmountLists(v) ==
 MintAct ==
   /\ On("mint")
   /\ \E q \in Pick(LET paid == {x \in DOMAIN S.mq : EffMq(S.mq[x]) = "PAID"}
-                   IN IF paid # {} /\ Often(75) THEN paid ELSE DOMAIN S.mq) :
-     \E amts \in Pick(AmountLists(S.mq[q].amt)) :
-     \E sig \in Pick(IF S.mq[q].lock = "none" THEN {"none"} ELSE {"valid", "valid", "none", "garbage", "wrongkey", "otherquote", "reordered", "removed"}) :
+                   IN IF GhostMq # {} /\ Sim /\ Often(20) THEN GhostMq
+                      ELSE IF paid # {} /\ Often(75) THEN paid ELSE DOMAIN S.mq) :
+     \E amts \in Pick(AmountLists(IF q \in DOMAIN S.mq THEN S.mq[q].amt ELSE 2)) :
+     \E sig \in Pick(IF q \notin DOMAIN S.mq \/ S.mq[q].lock = "none" THEN {"none"} ELSE {"valid", "valid", "none", "garbage", "wrongkey", "otherquote", "reordered", "removed"}) :
      \E reuse \in Pick({FALSE, FALSE, FALSE, TRUE}) :
        /\ nb + Len(amts) <= MaxOut
        /\ LET useOld == reuse /\ Signed # {}
@@ -239,25 +245,25 @@ MeltQuoteAct ==
                LET a == [kind |-> "ext", target |-> "", msat |-> 0, invmsat |-> amt * 1000, amt |-> amt, unit |-> "sat"]
                    ok == MeltQuoteCauses(S, a) = {}
                IN /\ S' = IF ok THEN NewMeltQuote(S, Lq(nlq + 1), a, [amt |-> amt, reserve |-> Reserve(amt)]) ELSE S
-                  /\ nlq' = IF ok THEN nlq + 1 ELSE nlq
+                  /\ nlq' = nlq + 1
                   /\ Record([op |-> "meltquote", kind |-> "ext", amt |-> amt])
        \/ /\ kind = "int"
           /\ \E t \in Pick({q \in DOMAIN S.mq : ~\E x \in DOMAIN S.lq : S.lq[x].target = q}) :
                LET a == [kind |-> "int", target |-> t, msat |-> 0, invmsat |-> S.mq[t].amt * 1000, amt |-> S.mq[t].amt, unit |-> "sat"]
                    ok == MeltQuoteCauses(S, a) = {}
                IN /\ S' = IF ok THEN NewMeltQuote(S, Lq(nlq + 1), a, [amt |-> S.mq[t].amt, reserve |-> 0]) ELSE S
-                  /\ nlq' = IF ok THEN nlq + 1 ELSE nlq
+                  /\ nlq' = nlq + 1
                   /\ Record([op |-> "meltquote", kind |-> "int", q |-> t])
        \/ /\ kind = "mpp"
           /\ \E ms \in Pick(MppMsats) :
                LET a == [kind |-> "mpp", target |-> "", msat |-> ms, invmsat |-> ms * 2 + 1000, amt |-> ms \div 1000, unit |-> "sat"]
                    ok == MeltQuoteCauses(S, a) = {}
                IN /\ S' = IF ok THEN NewMeltQuote(S, Lq(nlq + 1), a, [amt |-> ms \div 1000, reserve |-> Reserve(ms \div 1000)]) ELSE S
-                  /\ nlq' = IF ok THEN nlq + 1 ELSE nlq
+                  /\ nlq' = nlq + 1
                   /\ Record([op |-> "meltquote", kind |-> "mpp", msat |-> ms])
        \/ /\ kind = "mppint"
           /\ \E t \in Pick(DOMAIN S.mq) :
-               /\ S' = S /\ nlq' = nlq
+               /\ S' = S /\ nlq' = nlq + 1
                /\ Record([op |-> "meltquote", kind |-> "mppint", q |-> t, msat |-> 1000])
   /\ UNCHANGED <<nb, nmq>>
 
@@ -270,8 +276,9 @@ LnCalls(q, pay, status) ==
 MeltAct ==
   /\ On("melt")
   /\ \E q \in Pick(LET open == {x \in DOMAIN S.lq : S.lq[x].st = "UNPAID"}
-                   IN IF open # {} /\ Often(80) THEN open ELSE DOMAIN S.lq) :
-     \E ch \in Pick(LET hc == HonestChoices(S.lq[q].amt + S.lq[q].reserve)
+                   IN IF GhostLq # {} /\ Sim /\ Often(35) THEN GhostLq
+                      ELSE IF open # {} /\ Often(80) THEN open ELSE DOMAIN S.lq \cup GhostLq) :
+     \E ch \in Pick(LET hc == HonestChoices(IF q \in DOMAIN S.lq THEN S.lq[q].amt + S.lq[q].reserve ELSE 2)
                     IN IF hc # {} /\ Often(70) THEN hc ELSE InputChoices) :
      \E pay \in Pick(PayAnswers), st \in Pick(StatusAnswers) :
        LET ins == InFacts(ch)
@@ -283,9 +290,9 @@ MeltAct ==
 
 PollMeltAct ==
   /\ On("pollmelt") /\ Often(60)
-  /\ \E q \in Pick(DOMAIN S.lq) :
+  /\ \E q \in Pick(DOMAIN S.lq \cup (IF Sim THEN GhostLq ELSE {})) :
      \E st \in Pick(StatusAnswers) :
-       /\ S' = IF S.lq[q].st = "PENDING"
+       /\ S' = IF q \in DOMAIN S.lq /\ S.lq[q].st = "PENDING"
                THEN Charge(CHOOSE S2 \in PollOutcomes(S, q, LnCalls(q, "none", <<st>>)) : TRUE, q, PollHow(LnCalls(q, "none", <<st>>), q))
                ELSE S
        /\ Record([op |-> "pollmelt", q |-> q, status |-> <<st>>])
